@@ -44,16 +44,6 @@ theorem evalF_raw (env : Env) (e : Expr) (od : Opd) (h : evalF env e = .ok (.raw
       · obtain ⟨g, hg⟩ := applyBin_fld _ _ _ _ _ h
         cases hg
 
-theorem npLeft_eq (env : Env) (l : Expr) (vl : Val) (h : evalF env l = .ok vl) : npLeft l = npLeftV vl := by
-  cases vl with
-  | raw o => rw [evalF_raw env l o h]; rfl
-  | fld f =>
-    cases l with
-    | opd o => simp only [evalF] at h; injection h with h; cases h
-    | leaf k => rfl
-    | un u e => rfl
-    | bin b l r => rfl
-
 theorem operandOk_raw (env : Env) (n : List Nat) (l : Expr) (vl : Val) (h : evalF env l = .ok vl)
     (hok : operandOk n l) : ∀ od, vl = .raw od → OpdLiftOk n od := by
   intro od hv
@@ -135,8 +125,7 @@ theorem eval_good (env : Env) (n : List Nat) (hwf : ∀ f ∈ env.fields, CFwf f
         obtain ⟨hr, hmr⟩ := ihr vr hokr her
         obtain ⟨hc, self, hself, hm⟩ := applyBin_cells env b n vl vr g _ _ _ _ hl hr
           (fun hb => ⟨operandOk_raw env n l vl hel (hokb hb).1, operandOk_raw env n r vr her (hokb hb).2⟩) h
-        refine ⟨hc.congr (fun i => by simp only [evalCell])
-          (fun i => by simp only [validCell, npLeft_eq env l vl hel]), ?_⟩
+        refine ⟨hc.congr (fun i => by simp only [evalCell]) (fun i => by simp only [validCell]), ?_⟩
         intro g' hg'
         injection hg' with hg'
         subst hg'
